@@ -35,9 +35,16 @@ class Transformation(ABC):
     applied to the whole rule.
     """
 
-    processing_item: "ProcessingItemBase" | None = field(init=False, compare=False, default=None)
+    # The references back to the containing processing item and pipeline are not part of the
+    # representation: they would pull the whole pipeline (including its per-rule state) into the
+    # repr of each transformation and by this into error messages.
+    processing_item: "ProcessingItemBase" | None = field(
+        init=False, compare=False, default=None, repr=False
+    )
 
-    _pipeline: "ProcessingPipeline" | None = field(init=False, compare=False, default=None)
+    _pipeline: "ProcessingPipeline" | None = field(
+        init=False, compare=False, default=None, repr=False
+    )
 
     @classmethod
     def from_dict(cls, d: dict[str, Any]) -> "Transformation":
@@ -106,7 +113,9 @@ class DetectionItemTransformation(PreprocessingTransformation):
     A detection item transformation also marks the item as unconvertible to plain data types.
     """
 
-    processing_item: "ProcessingItem" | None = field(init=False, compare=False, default=None)
+    processing_item: "ProcessingItem" | None = field(
+        init=False, compare=False, default=None, repr=False
+    )
 
     @abstractmethod
     def apply_detection_item(
